@@ -49,9 +49,16 @@ def obis6(rng, cde=None):
 
 def text(rng, n=None, exclude_len=()):
     while True:
-        k = rng.choice([0, 1, 7, 16, 18, 40]) if n is None else n
+        # 12 = the length of a COSEM date-time (the octet-string alternative tried first), 6 = an OBIS code, 2/4/8 = integers
+        k = rng.choice([0, 1, 7, 16, 18, 40, 12, 12, 6, 2, 4, 8, 11, 13, 255]) if n is None else n
         if k not in exclude_len:
             break
+    r = rng.random()
+    if r < 0.08 and k:      # outside "printable" (not well-formed for the theorems): still compared with the model
+        b = bytearray(rng.choice(PRINT) for _ in range(k))
+        for _ in range(rng.choice([1, 1, 2])):
+            b[rng.choice([len(b) - 1, len(b) - 1, 0, rng.randrange(len(b))])] = rng.choice([0, 0, 0, 9, 10, 13, 31, 127, 128, 255])
+        return lib.hexs(bytes(b))
     return lib.hexs(bytes(rng.choice(PRINT) for _ in range(k)))
 
 
